@@ -383,6 +383,8 @@ def events(b, rng, exp, ver, players, vehicles, consts):
             b.emit('stats', struct.pack('<i', len(js)) + js)
         if r < 0.15 and len(vehicles) >= 2:
             victim, killer = rng.sample(vehicles, 2)
+            if rng.random() < 0.2:
+                killer = victim                     # self-inflicted (ramming, own torpedoes, detonation)
             typ = rng.choice(list(getattr(consts, 'DEATH_TYPES', {1: 0}).keys()) or [1])
             if b.call(AVATAR_ID, 'receiveVehicleDeath', [victim, killer, typ]):
                 deaths.append([victim, killer, typ])
@@ -481,6 +483,14 @@ def events(b, rng, exp, ver, players, vehicles, consts):
             if len({tuple(d) for d in deaths}) >= 2:
                 break
             typ = sorted(getattr(consts, 'DEATH_TYPES', {1: 0}).keys() or [1])[0]
+            if b.call(AVATAR_ID, 'receiveVehicleDeath', [victim, killer, typ]):
+                deaths.append([victim, killer, typ])
+                b.trace.append(['death', victim, killer, typ])
+    # ... one self-inflicted death, and one kill credited to a ship that is already sunk
+    if len(vehicles) >= 2:
+        typ = sorted(getattr(consts, 'DEATH_TYPES', {1: 0}).keys() or [1])[-1]
+        dead = [d[0] for d in deaths]
+        for victim, killer in ((vehicles[-1], vehicles[-1]), (vehicles[-2], dead[0] if dead else vehicles[-1])):
             if b.call(AVATAR_ID, 'receiveVehicleDeath', [victim, killer, typ]):
                 deaths.append([victim, killer, typ])
                 b.trace.append(['death', victim, killer, typ])
